@@ -7,7 +7,7 @@ table order of a selection.  Not decided: View/SliceView composition arithmetic.
 import ast
 import re
 
-from ..model import walk_shallow, call_name, is_self_attr, dotted_name, parent, ancestors, enclosing_function
+from ..model import walk_shallow, call_name, is_self_attr, dotted_name, parent, ancestors, enclosing_function, rename_copy
 from ..util import (has_call, find_calls, assigned_value, const_str, unparse, kw, arg_or_kw, enclosing_stmt,
                     guards_of, call_tail, control_ancestors)
 from .. import mutate as M
@@ -30,9 +30,64 @@ EXPECT = {
 }
 
 
+def _roles_compare(fn):
+    m = {}
+    for x in ast.walk(fn):
+        if isinstance(x, ast.comprehension):
+            it = unparse(x.iter)
+            if it.startswith("enumerate(col, lo)") and isinstance(x.target, ast.Tuple) and len(x.target.elts) == 2:
+                m.setdefault(unparse(x.target.elts[0]), "i")
+                m.setdefault(unparse(x.target.elts[1]), "c")
+            elif it.startswith("sorted(") and isinstance(x.target, ast.Name):
+                m.setdefault(x.target.id, "v")
+            elif it.startswith("zip(") and isinstance(x.target, ast.Tuple) and len(x.target.elts) == 2:
+                m.setdefault(unparse(x.target.elts[0]), "v0")
+                m.setdefault(unparse(x.target.elts[1]), "v1")
+        if isinstance(x, ast.Assign) and isinstance(x.targets[0], ast.Tuple) and len(x.targets[0].elts) == 2 and "arg.items()" in unparse(x.value):
+            m.setdefault(unparse(x.targets[0].elts[0]), "key")
+            m.setdefault(unparse(x.targets[0].elts[1]), "value")
+    return m
+
+
+def _roles_where(fn):
+    from ..util import bound_names
+    m = {}
+    for n in bound_names(fn, lambda v: isinstance(v, ast.List) and not v.elts):
+        m[n] = "selection"
+    for x in walk_shallow(fn):
+        if isinstance(x, ast.For) and isinstance(x.target, ast.Tuple) and len(x.target.elts) == 2:
+            a, b = unparse(x.target.elts[0]), unparse(x.target.elts[1])
+            it = unparse(x.iter)
+            if it == "kwargs.items()":
+                m[a], m[b] = "kw", "arg"
+            elif it.startswith("self._lohis["):
+                m[a], m[b] = "lo", "hi"
+            elif it.startswith("self._compare("):
+                m[a], m[b] = "l", "h"
+    return m
+
+
+def _roles_index(fn):
+    from ..util import bound_names
+    m = {}
+    for n in bound_names(fn, lambda v: unparse(v) == "list(range(len(self)))"):
+        m[n] = "indexes"
+    for n in bound_names(fn, lambda v: unparse(v) == "[(0, len(self))]"):
+        m[n] = "lohis"
+    for x in walk_shallow(fn):
+        if isinstance(x, ast.For):
+            if isinstance(x.target, ast.Name) and unparse(x.iter).startswith(("indx", "self._data.keys()")):
+                m[x.target.id] = "col"
+            if isinstance(x.target, ast.Tuple) and len(x.target.elts) == 2 and not unparse(x.iter).startswith("self."):
+                m[unparse(x.target.elts[0])], m[unparse(x.target.elts[1])] = "lo", "hi"
+    return m
+
+
 def run(ctx):
     cmpf = ctx.fn(RES, "Table._compare")
     where = ctx.fn(RES, "Table.where")
+    cmpf = rename_copy(cmpf, _roles_compare(cmpf))
+    where = rename_copy(where, _roles_where(where))
     arms = _arms(cmpf)
     r1_operator_sets(ctx, cmpf, where, arms)
     r2_bisect_scan(ctx, cmpf, arms)
@@ -160,6 +215,7 @@ def r4_index_invariant(ctx):
                detail={"appends": len(appends)}, stmt=f"Table.{mname} appends rows")
     ctx.floor("C17.R4", "row-appending methods of Table", n, 1)
     idx = cls.methods["index"]
+    idx = rename_copy(idx, _roles_index(idx))
     src = unparse(idx)
     ok = "self._indexes = tuple(indx)" in src and "self._lohis = self._calc_lohis()" in src and "sorted(indexes[lo:hi], key=self._data[col].__getitem__)" in src
     ctx.ob("C17.R4", RES, "Table.index", idx, "index() stably sorts every column by the index columns and records them", ok, stmt="index sorts")
@@ -179,6 +235,8 @@ def r5_order(ctx, where, arms):
     it = unparse(b.generators[0].iter) if isinstance(b, ast.ListComp) else ""
     ctx.ob("C17.R5", RES, "Table._compare", b if b is not None else where, "'in' visits its values in ascending order", it.startswith("sorted("), stmt="in: ascending values")
     sub = ctx.fn(RES, "Table._sub_lohis")
+    from ..util import bound_names
+    sub = rename_copy(sub, {n: "new_hi" for n in bound_names(sub, lambda v: isinstance(v, ast.Call) and call_name(v) == "my_bisect_right")})
     src = unparse(sub)
     ok = "new_hi = my_bisect_right(col, col[lo], lo, hi)" in src and "yield (lo, new_hi)" in src and "lo = new_hi" in src
     ctx.ob("C17.R5", RES, "Table._sub_lohis", sub, "sub-ranges partition [lo,hi) into maximal runs of equal values, ascending", ok, stmt="_sub_lohis")
